@@ -101,12 +101,13 @@ def printed_accept_task(logic, L):
     t0 = time.time()
     P, tab, states, lexemes, lex = lalr.extract(mod)
     w, wf, accepted, running, overflow = lalr.encode_run(tab, states, lexemes, lex, 'formula', L, L + 2, 4 * L + 6)
-    G = printamb.tagged_grammar(printamb.extract_templates(mod))
+    # printed forms of the formulas of THIS logic (kind-respecting grammar; see printamb.kinded_grammar)
+    G, starts = printamb.kinded_grammar(logic, printamb.extract_templates(mod))
     ren = {'q': 'A1'}
     g2 = {}
     for N, rules in G.items():
         g2[N] = [tuple((frozenset([ren.get(x, x)]) if k == 't' else x) for k, x in rhs) for rhs, tag in rules]
-    printed = lalr.cyk(w, lexemes, L, g2, ['Fm'])
+    printed = lalr.cyk(w, lexemes, L, g2, starts)
     smt = SmtProc(timeout_ms=1500000)
     rec = dict(logic=logic, L=L, encode_s=round(time.time() - t0, 1))
     rec['unwind'] = smt.check(wf, b_or(running, overflow))
